@@ -588,11 +588,11 @@ Proof. intros d H. unfold in_utc_range in H. rewrite andb_true_iff in H. lia. Qe
 
 Theorem avro_roundtrip : forall logical guard d, in_utc_range d = true ->
   (logical = true \/ guard < to_micros d) ->
-  obind (avro_encode d) (avro_decode logical guard) = Some (to_utc d)
+  avro_decode logical guard (avro_encode d) = Some (to_utc d)
   /\ to_micros (to_utc d) = to_micros d /\ off (to_utc d) = Some 0 /\ valid (to_utc d).
 Proof.
   intros logical guard d Hr Hg. pose proof (in_utc_range_bounds d Hr) as Hb.
-  unfold avro_encode. rewrite Hr. cbn [obind avro_decode].
+  unfold avro_encode. cbn [avro_decode].
   assert (E : logical || (guard <? to_micros d) = true).
   { destruct Hg as [->|Hg]; [reflexivity|]. apply orb_true_iff. right. apply Z.ltb_lt. exact Hg. }
   rewrite E. rewrite dt_of_epoch_in_range by exact Hb. unfold to_utc.
@@ -616,6 +616,22 @@ Proof.
     - assert (Hx := days_from_civil_lower (yr d) (mo d) (dy d) Hvd ltac:(lia)). lia.
     - assert (Hx := days_from_civil_upper (yr d) (mo d) (dy d) Hvd ltac:(lia)). lia. }
   apply andb_true_iff. unfold DAY_US, SEC_US in *. split; [apply Z.leb_le|apply Z.leb_le]; lia.
+Qed.
+
+(* an instant outside [0001-01-01T00:00:00Z, 9999-12-31T23:59:59.999999Z] has no UTC value: reading is refused *)
+Lemma dt_of_epoch_out_of_range : forall n, ~ (MIN_MICROS <= n <= MAX_MICROS) -> dt_of_epoch n = None.
+Proof.
+  intros n Hn. unfold dt_of_epoch. destruct (validb (from_micros_utc n)) eqn:E; [exfalso|reflexivity].
+  pose proof (from_micros_fields n) as (_ & _ & Ho).
+  destruct (avro_roundtrip_utc (from_micros_utc n) E Ho) as [Hr _].
+  apply in_utc_range_bounds in Hr. rewrite to_micros_from_micros in Hr. exact (Hn Hr).
+Qed.
+
+Theorem avro_out_of_range_refused : forall guard d, in_utc_range d = false ->
+  avro_decode true guard (avro_encode d) = None.
+Proof.
+  intros guard d H. unfold avro_encode. cbn [avro_decode orb]. apply dt_of_epoch_out_of_range.
+  intros Hb. unfold in_utc_range in H. apply andb_false_iff in H. destruct H as [H|H]; lia.
 Qed.
 
 (* ------------------------------------------------------------------ display setting *)
